@@ -16,6 +16,7 @@ import betterproto
 
 from vf.core import atoms as AT
 from vf.core import plugin
+from vf.core.descmatch import resolve_hints
 from vf.core.runner import Ctx, HarnessError, Tally, Violation, merge_tallies, pmap_shards
 from vf.checks import c13
 
@@ -126,7 +127,7 @@ def sample_value(cls, fname: str, meta, hint, depth: int, variant: str = "base")
 
 
 def sample_instance(cls, depth: int = 2, variant: str = "base"):
-    hints = cls._type_hints()
+    hints = resolve_hints(cls)
     kwargs = {}
     groups_done = set()
     for f in dataclasses.fields(cls):
